@@ -64,7 +64,9 @@ def fully_connect(
         .sample(num_pre, replace=True)
         .index.to_numpy()
     )
-    global_post_indices = global_post_indices.reshape((-1, num_pre), order="F").ravel()
+    # The sample is ordered by post cell (`num_pre` samples per post cell), whereas the
+    # pre rows below are ordered by pre cell (every pre cell repeated `num_post` times).
+    global_post_indices = global_post_indices.reshape((num_pre, -1), order="F").ravel()
     post_rows = post_cell_view.nodes.loc[global_post_indices]
 
     # Pre-synapse is at the zero-eth branch and zero-eth compartment.
